@@ -71,7 +71,8 @@ pub fn one_effort(m: &LinearModel, tol: f64, effort: usize, tags: &mut Vec<Strin
             let nslack = v.variables.iter().filter(|n| n.starts_with("$sl_")).count();
             let nsurplus = v.variables.iter().filter(|n| n.starts_with("$su_")).count();
             let nbound = v.rows.len() - m.constraints().len();
-            let nflip = m.constraints().iter().filter(|r| rooc::verif_hooks::float_lt_hook(r.rhs(), 0.0)).count();
+            let nflip = m.constraints().iter().filter(|r| r.rhs() < 0.0).count(); // exact sign test since /repo 947e0f0
+            if m.constraints().iter().any(|r| r.rhs() < 0.0 && !rooc::verif_hooks::float_lt_hook(r.rhs(), 0.0)) { tags.push("regression:rhs-negative-inside-old-tolerance-band".into()); }
             if nfree > 0 { tags.push("rule:free-split".into()); }
             if nslack > 0 { tags.push("rule:slack".into()); }
             if nsurplus > 0 { tags.push("rule:surplus".into()); }
@@ -206,7 +207,9 @@ pub fn generate(seed: u64, n: usize, thorough: bool, _corpus: Option<&str>) -> V
         let s = gen_std::random_spec(&mut r, 5, 5, &gen_std::VKINDS7, class);
         cases.push(one(&gen_std::build(&s), tol, spec_tags(&s, "random")));
     }
-    // --- tolerance boundary on the right-hand side specifically (sign normalisation uses float_lt)
+    // --- tolerance boundary on the right-hand side specifically: REGRESSION stream of the repaired defect
+    // C13-rhs-sign-within-tolerance (sign normalisation used float_lt; exact since /repo 947e0f0); contains the
+    // finding's input `max x - y s.t. 2x + y <= -0.000005`
     for p in gen_std::PERTURB.iter().chain([tol, tol * 0.5, tol * 0.999999, tol * 1.000001].iter()) {
         for sgn in [-1.0, 1.0] {
             for cmp in gen_std::RKINDS {
@@ -215,7 +218,7 @@ pub fn generate(seed: u64, n: usize, thorough: bool, _corpus: Option<&str>) -> V
                 m.add_variable("y", VariableType::real());
                 m.set_objective(vec![1.0, -1.0], OptimizationType::Max);
                 m.add_constraint(vec![2.0, 1.0], cmp, sgn * p);
-                cases.push(one(&m, tol, vec!["stream:rhs-tolerance-boundary".into(), DataClass::TolBoundary.tag().into()]));
+                cases.push(one(&m, tol, vec!["stream:rhs-tolerance-boundary".into(), "regression:C13-rhs-sign-within-tolerance".into(), DataClass::TolBoundary.tag().into()]));
             }
         }
     }
